@@ -58,6 +58,12 @@ func (d Decimal) Ceil(dp int) Decimal {
 		return zero(d.Signbit())
 	}
 
+	// Every quantum above 10^(maxUnbiasedExponent+2*maxDigits) is larger than
+	// any finite Decimal, so dp is clamped there before it is negated.
+	if dp < -(maxUnbiasedExponent + 2*maxDigits) {
+		dp = -(maxUnbiasedExponent + 2*maxDigits)
+	}
+
 	dp = dp*-1 + exponentBias
 	iexp := int(exp)
 
@@ -70,7 +76,7 @@ func (d Decimal) Ceil(dp int) Decimal {
 			return zero(d.Signbit())
 		}
 
-		return compose(false, uint128{1, 0}, int16(dp))
+		return composeQuantum(false, uint128{1, 0}, dp)
 	}
 
 	var trunc int8
@@ -112,11 +118,7 @@ func (d Decimal) Ceil(dp int) Decimal {
 		}
 	}
 
-	if exp > maxBiasedExponent {
-		return inf(neg)
-	}
-
-	return compose(neg, sig, exp)
+	return composeQuantum(neg, sig, int(exp))
 }
 
 // Floor returns the greatest Decimal value less than or equal to d that has no
@@ -139,6 +141,12 @@ func (d Decimal) Floor(dp int) Decimal {
 		return zero(d.Signbit())
 	}
 
+	// Every quantum above 10^(maxUnbiasedExponent+2*maxDigits) is larger than
+	// any finite Decimal, so dp is clamped there before it is negated.
+	if dp < -(maxUnbiasedExponent + 2*maxDigits) {
+		dp = -(maxUnbiasedExponent + 2*maxDigits)
+	}
+
 	dp = dp*-1 + exponentBias
 	iexp := int(exp)
 
@@ -151,7 +159,7 @@ func (d Decimal) Floor(dp int) Decimal {
 			return zero(d.Signbit())
 		}
 
-		return compose(true, uint128{1, 0}, int16(dp))
+		return composeQuantum(true, uint128{1, 0}, dp)
 	}
 
 	var trunc int8
@@ -193,11 +201,7 @@ func (d Decimal) Floor(dp int) Decimal {
 		}
 	}
 
-	if exp > maxBiasedExponent {
-		return inf(neg)
-	}
-
-	return compose(neg, sig, exp)
+	return composeQuantum(neg, sig, int(exp))
 }
 
 // Round rounds (or quantises) a Decimal value to the specified number of
@@ -219,6 +223,12 @@ func (d Decimal) Round(dp int, mode RoundingMode) Decimal {
 
 	if sig[0]|sig[1] == 0 {
 		return zero(d.Signbit())
+	}
+
+	// Every quantum above 10^(maxUnbiasedExponent+2*maxDigits) is larger than
+	// any finite Decimal, so dp is clamped there before it is negated.
+	if dp < -(maxUnbiasedExponent + 2*maxDigits) {
+		dp = -(maxUnbiasedExponent + 2*maxDigits)
 	}
 
 	dp = dp*-1 + exponentBias
@@ -252,11 +262,30 @@ func (d Decimal) Round(dp int, mode RoundingMode) Decimal {
 	neg := d.Signbit()
 	sig, exp = mode.round(false, neg, sig, int16(iexp), trunc, digit)
 
-	if exp > maxBiasedExponent {
-		return inf(neg)
+	return composeQuantum(neg, sig, int(exp))
+}
+
+// composeQuantum composes sig × 10^exp (exp biased) for a value that was
+// quantised to a quantum whose exponent may lie above the largest exponent: the
+// multiple is still representable when its significand can absorb the
+// difference, and is ±Inf otherwise.
+func composeQuantum(neg bool, sig uint128, exp int) Decimal {
+	if sig[0]|sig[1] == 0 {
+		return zero(neg)
 	}
 
-	return compose(neg, sig, exp)
+	for exp > maxBiasedExponent {
+		tmp := sig.mul64(10)
+
+		if tmp[1] > 0x0002_7fff_ffff_ffff {
+			return inf(neg)
+		}
+
+		sig = tmp
+		exp--
+	}
+
+	return compose(neg, sig, int16(exp))
 }
 
 // RoundingMode determines how a Decimal value is rounded when the result of an
